@@ -9,8 +9,10 @@ package shrex_getter //nolint:stylecheck
 // at most once and in list order. The caller's context is a c06kit.ScriptCtx: it ends when the
 // script says so ("the deadline runs out while peer k is asked" / "after the last peer"), never
 // because of the wall clock. The only real-time element is the per-attempt timeout
-// (minRequestTimeout lowered to 30 ms) that "stall" peers make the getter run into; an honest
-// answer that is cut short by it under load is observed as such and no claim is made for it.
+// (minRequestTimeout lowered to 30 ms, only in cases whose script contains a stalling peer) that
+// "stall" peers make the getter run into; an honest answer that is cut short by it under load is
+// observed as such and no claim is made for it, and such a case never qualifies for the NOT_FOUND
+// claim.
 
 import (
 	"context"
@@ -18,6 +20,7 @@ import (
 	"fmt"
 	"os"
 	"path/filepath"
+	"strings"
 	"testing"
 	"time"
 
@@ -39,7 +42,7 @@ import (
 const c06AttemptTimeout = 30 * time.Millisecond
 
 // c06Getter wires a real Getter over the fake host with npeers peers known to both managers.
-func c06Getter(net *kit.ShrexNet, npeers int, blacklisting bool) (*Getter, func(), error) {
+func c06Getter(net *kit.ShrexNet, npeers int, blacklisting bool, attemptTimeout time.Duration) (*Getter, func(), error) {
 	params := shrex.DefaultClientParameters()
 	params.WithNetworkID("c06")
 	client, err := shrex.NewClient(params, net)
@@ -65,7 +68,9 @@ func c06Getter(net *kit.ShrexNet, npeers int, blacklisting bool) (*Getter, func(
 		return nil, nil, err
 	}
 	g := NewGetter(client, full, arch, availability.RequestWindow)
-	g.minRequestTimeout = c06AttemptTimeout
+	if attemptTimeout > 0 {
+		g.minRequestTimeout = attemptTimeout
+	}
 	if err := g.Start(context.Background()); err != nil {
 		return nil, nil, err
 	}
@@ -95,6 +100,10 @@ func c06ShrexCase(t *rapid.T) {
 	}
 	archival := rapid.IntRange(0, 3).Draw(t, "archival") == 0
 	blacklisting := rapid.Bool().Draw(t, "blacklisting")
+	// with the barrier the context of a multi-coordinate call ends only when every coordinate's
+	// request has been answered acceptably or waits at the end of its script (deterministic);
+	// without it the end races with the other coordinates' attempts (schedule-dependent)
+	barrier := rapid.IntRange(0, 7).Draw(t, "racy-end") != 0
 
 	// attempts can only time out quickly when the caller's context carries no deadline: then every
 	// attempt gets minRequestTimeout; with a deadline one hour ahead an attempt gets 20 minutes
@@ -105,7 +114,18 @@ func c06ShrexCase(t *rapid.T) {
 	ctl := kit.NewScriptCtx(farDeadline, flavour)
 	defer ctl.End()
 	net := kit.NewShrexNet(ctl, sq, height, items)
-	g, stop, err := c06Getter(net, kit.TotalSteps(items)+4, blacklisting)
+	net.Barrier = barrier
+	// the per-attempt timeout is lowered only when some peer stalls: otherwise no timer of the
+	// getter can fire during a case and nothing depends on how fast the machine is
+	attemptTimeout := time.Duration(0)
+	for _, sc := range scripts {
+		for _, k := range sc {
+			if strings.HasPrefix(k, "stall-") {
+				attemptTimeout = c06AttemptTimeout
+			}
+		}
+	}
+	g, stop, err := c06Getter(net, kit.TotalSteps(items)+4, blacklisting, attemptTimeout)
 	if err != nil {
 		t.Fatalf("VERIF-INFRA C06 harness: building the getter: %v", err)
 	}
@@ -115,8 +135,8 @@ func c06ShrexCase(t *rapid.T) {
 	res, hung := kit.Run(ctl, req, g, hdr, ctl.End)
 	ctl.End()
 	hist := net.History()
-	what := fmt.Sprintf("request %s at height %d of square {%s}; peer scripts %s; served %v; ctx(far-deadline=%v, ends-with=%v) archival=%v blacklisting=%v",
-		req.Desc(), height, sq.Desc(), kit.ScriptsDesc(scripts), hist, farDeadline, flavour, archival, blacklisting)
+	what := fmt.Sprintf("request %s at height %d of square {%s}; peer scripts %s; served %v; ctx(far-deadline=%v, ends-with=%v, barrier=%v) archival=%v blacklisting=%v",
+		req.Desc(), height, sq.Desc(), kit.ScriptsDesc(scripts), hist, farDeadline, flavour, barrier, archival, blacklisting)
 	if hung {
 		t.Fatalf("VERIF-INFRA C06 shrex: the call did not return within %v although every peer answers from memory (%s)", kit.HangBound, what)
 	}
@@ -145,10 +165,13 @@ func c06ShrexCase(t *rapid.T) {
 	labels := append(req.Labels(sq), st.Labels...)
 	labels = append(labels, "result="+req.ResultShape(res), fmt.Sprintf("ctx-far-deadline=%v", farDeadline),
 		fmt.Sprintf("blacklisting=%v", blacklisting), fmt.Sprintf("archival=%v", archival))
+	if len(items) > 1 {
+		labels = append(labels, fmt.Sprintf("multi-request-barrier=%v", barrier))
+	}
 	if st.AllServed {
 		labels = append(labels, "oracle=honest-must-succeed")
 	}
-	vk.Record(fmt.Sprintf("%s|%d|%s|%s|%v%v%v%v", sq.Desc(), height, req.Desc(), kit.ScriptsDesc(scripts), farDeadline, flavour, archival, blacklisting),
+	vk.Record(fmt.Sprintf("%s|%d|%s|%s|%v%v%v%v%v", sq.Desc(), height, req.Desc(), kit.ScriptsDesc(scripts), farDeadline, flavour, archival, blacklisting, barrier),
 		labels, st.Misbehaved, func() any {
 			return map[string]any{"square": sq.Desc(), "request": req.Desc(), "scripts": kit.ScriptsDesc(scripts),
 				"served": hist, "error": fmt.Sprint(res.Err)}
@@ -184,7 +207,7 @@ func TestVerifC06_ShrexWitnesses(t *testing.T) {
 		ctl := kit.NewScriptCtx(false, context.DeadlineExceeded)
 		defer ctl.End()
 		net := kit.NewShrexNet(ctl, sq, height, []*kit.Item{it})
-		g, stop, err := c06Getter(net, 8, false)
+		g, stop, err := c06Getter(net, 8, false, 0)
 		if err != nil {
 			t.Fatalf("VERIF-INFRA C06 witness %s: %v", name, err)
 		}
